@@ -63,6 +63,32 @@ class _NFile(NativeObj):
         return None
 
 
+class _NWFile(NativeObj):
+    """A file opened for writing: the text lands in the virtual file system when it is closed."""
+
+    def __init__(self, pipe: Any, path: str, text: str) -> None:
+        self.pipe = pipe
+        self.path = path
+        self.text = text
+        pipe.files[path] = text
+
+    def write(self, t: Any) -> int:
+        if not isinstance(t, str):
+            raise PyExc("TypeError", "write() argument must be str")
+        self.text += t
+        self.pipe.files[self.path] = self.text
+        return len(t)
+
+    def __enter__(self) -> "_NWFile":
+        return self
+
+    def __exit__(self, *a: Any) -> None:
+        return None
+
+    def close(self) -> None:
+        return None
+
+
 class _NParser(NativeObj):
     def __init__(self, pipe: "Pipeline", grammar: str, stream: _NStream) -> None:
         self.pipe = pipe
@@ -110,6 +136,8 @@ class Pipeline:
         self._freq: dict[tuple[str, str], dict[str, int]] = {}
         self._parse_cache: dict[tuple[str, str], Any] = {}
         self.files: dict[str, str] = {}
+        self.writable = False
+        self.cwd = "/"  # relative paths of the virtual file system are resolved here
         I = self.I
         nat = I.natives
         nat["antlr4.InputStream"] = lambda t: _NInput(t)
@@ -124,11 +152,12 @@ class Pipeline:
         nat["os.path.join"] = posixpath.join
         nat["os.path.normpath"] = posixpath.normpath
         nat["os.path.relpath"] = posixpath.relpath
-        nat["os.path.realpath"] = lambda p: posixpath.normpath(posixpath.join("/", str(p)))
-        nat["os.path.abspath"] = lambda p: posixpath.normpath(posixpath.join("/", str(p)))
-        nat["os.path.isfile"] = lambda p: posixpath.normpath(str(p)) in self.files
-        nat["os.path.exists"] = lambda p: posixpath.normpath(str(p)) in self.files or any(f.startswith(posixpath.normpath(str(p)).rstrip("/") + "/") for f in self.files)
-        nat["os.path.isdir"] = lambda p: any(f.startswith(posixpath.normpath(str(p)).rstrip("/") + "/") for f in self.files)
+        nat["os.path.realpath"] = lambda p: self.abs(p)
+        nat["os.path.abspath"] = lambda p: self.abs(p)
+        nat["os.getcwd"] = lambda: self.cwd
+        nat["os.path.isfile"] = lambda p: self.abs(p) in self.files
+        nat["os.path.exists"] = lambda p: self.abs(p) in self.files or any(f.startswith(self.abs(p).rstrip("/") + "/") for f in self.files)
+        nat["os.path.isdir"] = lambda p: any(f.startswith(self.abs(p).rstrip("/") + "/") for f in self.files)
         nat["pathlib.PurePath"] = PurePosixPath  # the virtual file system is POSIX
         nat["pathlib.PurePosixPath"] = PurePosixPath
         nat["re.compile"] = re.compile
@@ -136,10 +165,17 @@ class Pipeline:
         I.vfs_open = self._open  # type: ignore[attr-defined]
 
     # ------------------------------------------------------------------ file system
-    def _open(self, path: Any, mode: str = "r", *a: Any, **kw: Any) -> _NFile:
-        p = posixpath.normpath(str(path))
+    def abs(self, path: Any) -> str:
+        return posixpath.normpath(posixpath.join(self.cwd, str(path)))
+
+    def _open(self, path: Any, mode: str = "r", *a: Any, **kw: Any) -> Any:
+        p = self.abs(path)
         if "w" in mode or "a" in mode:
-            raise Unsupported("the analysed code writes a file")
+            if not self.writable:
+                raise Unsupported("the analysed code writes a file")
+            if posixpath.dirname(p) != "/" and not any(f.startswith(posixpath.dirname(p).rstrip("/") + "/") for f in self.files):
+                raise PyExc("FileNotFoundError", p)
+            return _NWFile(self, p, self.files.get(p, "") if "a" in mode else "")
         if p not in self.files:
             if any(f.startswith(p.rstrip("/") + "/") for f in self.files):
                 raise PyExc("IsADirectoryError", p)
